@@ -1,0 +1,16 @@
+//go:build verif
+
+package capnp
+
+import "sync/atomic"
+
+// VerifReadLimit returns the remaining traversal budget of m.
+func (m *Message) VerifReadLimit() uint64 {
+	m.rlimitInit.Do(m.initReadLimit)
+	return atomic.LoadUint64(&m.rlimit)
+}
+
+// VerifListInfo exposes a list's flags and element size.
+func VerifListInfo(l List) (flags int, dataSize uint32, ptrCount uint16) {
+	return int(l.flags), uint32(l.size.DataSize), l.size.PointerCount
+}
